@@ -234,6 +234,11 @@ func (r *Router) Start() {
 
 		if err := r.registerConnection(dst, c); err != nil {
 			log.Lvl3(r.address, "does not accept incoming connection from", c.Remote(), "because it's closed")
+			// Nobody else knows this connection: close it, or it stays open
+			// for as long as the peer keeps it.
+			if err := c.Close(); err != nil {
+				log.Lvl3("closing refused connection:", err)
+			}
 			return
 		}
 		// start handleConn in a go routine that waits for incoming messages and
@@ -370,6 +375,11 @@ func (r *Router) connect(si *ServerIdentity) (Conn, uint64, error) {
 	}
 
 	if err = r.registerConnection(si, c); err != nil {
+		// Nobody else knows this connection: close it, or it stays open
+		// for as long as the peer keeps it.
+		if cerr := c.Close(); cerr != nil {
+			log.Lvl3("closing refused connection:", cerr)
+		}
 		return nil, sentLen, xerrors.Errorf("register connection: %v", err)
 	}
 
